@@ -254,6 +254,9 @@ def _grid_arrays(spec: dict[str, Any]):
     elif met["kind"] == "polar":
         dx = polar_spacing(X, Y, met)
         dy = dx.copy()
+    elif met["kind"] == "eta_linear":  # spacing grows from row to row (as on a grid that fans out)
+        dx = float(met["dx"]) * (1.0 + met.get("slope", 0.04) * Y)
+        dy = float(met.get("dy", met["dx"])) * (1.0 + met.get("slope", 0.04) * Y)
     elif met["kind"] == "varying":
         rng = np.random.default_rng([met.get("seed", 0), 13])
         dx = met["dx"] * (1 + met.get("var", 0.2) * rng.uniform(-1, 1, size=(jmax, imax)))
@@ -309,6 +312,9 @@ def _write_grid_vars(nc: Dataset, spec: dict[str, Any], G: dict[str, Any]) -> No
     if spec.get("vert", {}).get("write_Vtransform", True):
         v = nc.createVariable("Vtransform", "i4", ())
         v[...] = G["Vtransform"]
+    if spec.get("vert", {}).get("Tcline") is not None:  # ROMS history files carry the input parameter Tcline next to hc (hc = min(hmin, Tcline) for Vtransform 1)
+        v = nc.createVariable("Tcline", "f8", ())
+        v[...] = spec["vert"]["Tcline"]
     if spec.get("vert", {}).get("write_Vstretching", False):
         v = nc.createVariable("Vstretching", "i4", ())
         v[...] = spec["vert"].get("Vstretching", 1)
